@@ -1,9 +1,9 @@
 (* C04 - Substitution pins the given value into the schema.
-   Only statements here; proofs are in proofs/SubstPins.v. *)
+   Only statements here; proofs are in proofs/SubstPins.v and proofs/SubstAccepts.v. *)
 From Coq Require Import PrimFloat.
 Require Import D42.Prelude D42.PyFloat D42.Value D42.Regex D42.Schema D42.Validate D42.Conforms
                D42.FromNative D42.Substitute D42.Agree.
-Require Import D42P.ValidateSpec D42P.SubstPins.
+Require Import D42P.ValidateSpec D42P.SubstPins D42P.SubstAccepts.
 
 (* Every value the substituted schema accepts carries the substituted data: for every
    well-formed schema s, every plain value v (dict keys pairwise distinct, as in any Python
@@ -61,6 +61,21 @@ Proof.
 Qed.
 Print Assumptions subst_accepts_value_refuted.
 
+(* The part of the statement that does hold: for schemas without a choice point
+   ([choice_free], proofs/SubstAccepts.v: every any has at most one alternative and no element
+   list has the contains form [..., x, ...]; nested dicts with optional keys and ...: ...,
+   typed lists, head/tail lists [a, ...] / [..., a], bounded scalars are all choice-free),
+   a value that conforms to the original schema is accepted by the result.
+   MISSING relative to the full statement: schemas with a choice point - an any with two or
+   more alternatives (F20) or a [..., x, ...] list (F25) - where the statement is false
+   ([subst_accepts_value_refuted], [f25_witness]).  Here conformance is [conforms] itself
+   (= verdict for well-formed schemas, C02) and no no_nan hypothesis is needed. *)
+Theorem subst_accepts_value_partial :
+  forall s, wf s = true -> choice_free s = true ->
+  forall v s', plain v = true -> vwf v = true -> substitute s v = Ok s' -> conforms s v -> conforms s' v.
+Proof. exact subst_accepts_lemma. Qed.
+Print Assumptions subst_accepts_value_partial.
+
 Example f25_witness :
   match substitute f25_s f25_v with Ok s' => verdict f25_s f25_v && negb (verdict s' f25_v) | _ => false end = true.
 Proof. vm_compute. reflexivity. Qed.
@@ -83,3 +98,17 @@ Example ex_rejects_non_carrier :
   | Ok s' => verdict s' (VDict [(kA, VList [VInt 3%Z; VInt 2%Z])])
   | _ => true end = false.
 Proof. vm_compute. reflexivity. Qed.
+
+(* non-vacuity of subst_accepts_value_partial: ex_s is choice-free, ex_v conforms to it, the
+   substitution succeeds (ex_hyps) - and, as the theorem says, the result accepts ex_v *)
+Example ex_choice_free :
+  choice_free ex_s = true /\ verdict ex_s ex_v = true /\
+  match substitute ex_s ex_v with Ok s' => verdict s' ex_v | _ => false end = true.
+Proof. vm_compute. auto. Qed.
+Example ex_partial_applies : exists s', substitute ex_s ex_v = Ok s' /\ conforms s' ex_v.
+Proof.
+  destruct (substitute ex_s ex_v) as [s'| |] eqn:E; [|vm_compute in E; discriminate ..].
+  exists s'. split; [reflexivity|].
+  apply (subst_accepts_value_partial ex_s); try (vm_compute; reflexivity); [exact E|].
+  apply (verdict_iff_conforms_lemma ex_s); vm_compute; reflexivity.
+Qed.
